@@ -442,11 +442,78 @@ static void verifier_records(const Args &a) {
 	}
 }
 
+
+// ------------------------------------------------------------------------------------------------ QR encoding
+// Rabin-type values: r and m - r have the same square, and everything is computed modulo m, so an accepted mutant is
+// tolerated iff it equals +-old modulo m (same square / same residue; DESIGN O2: these verifiers do not range-check).
+static void qr_systems(const Args &a) {
+	unsigned long ksz = a.thorough() ? 768 : 512;
+	TMCG_SecretKey *secA = new TMCG_SecretKey("Alice", "alice@example.org", ksz), *secB = new TMCG_SecretKey("Bob", "bob@example.org", ksz);
+	TMCG_PublicKey *pubA = new TMCG_PublicKey(*secA), *pubB = new TMCG_PublicKey(*secB);
+	if (!pubA->check() || !pubB->check()) { printf("NOTE qr: generated keys do not pass check()\n"); return; }
+	TMCG_PublicKeyRing *ring = new TMCG_PublicKeyRing(2), *vring = new TMCG_PublicKeyRing(2);
+	ring->keys[0] = *pubA; ring->keys[1] = *pubB; vring->keys[0] = *pubA; vring->keys[1] = *pubB;
+	Z *mA = new Z(pubA->m);
+	auto tolm = [mA](mpz_srcptr o, mpz_srcptr n) {
+		// bit-valued tokens (the b components of a card secret, challenge answers): only the parity is used
+		if (mpz_cmp_ui(o, 1) <= 0 && mpz_sgn(o) >= 0) return mpz_odd_p(o) == mpz_odd_p(n);
+		Z x, y, z; mpz_mod(x, o, *mA); mpz_mod(y, n, *mA); mpz_sub(z, *mA, y); return mpz_cmp(x, y) == 0 || mpz_cmp(x, z) == 0; };
+	auto key_knobs = [vring](System *S) {
+		for (size_t i = 0; i < 2; i++) { S->knobs.push_back(Knob{"key" + std::to_string(i) + ".m", vring->keys[i].m, 'm'}); S->knobs.push_back(Knob{"key" + std::to_string(i) + ".y", vring->keys[i].y, 'm'}); }
+	};
+	size_t tb = 3;
+	{   // cut and choose on TMCG_Card stacks
+		std::vector<size_t> ns = a.thorough() ? std::vector<size_t>{2, 4} : std::vector<size_t>{3};
+		unsigned long kappa = a.thorough() ? 8 : 5;
+		for (size_t n : ns) for (int cyc = 0; cyc < 2; cyc++) {
+			SchindelhauerTMCG *T = new SchindelhauerTMCG(kappa, 2, tb);
+			TMCG_Stack<TMCG_Card> *s = new TMCG_Stack<TMCG_Card>, *s2 = new TMCG_Stack<TMCG_Card>, *vs = new TMCG_Stack<TMCG_Card>, *vs2 = new TMCG_Stack<TMCG_Card>;
+			TMCG_StackSecret<TMCG_CardSecret> *ss = new TMCG_StackSecret<TMCG_CardSecret>;
+			for (size_t i = 0; i < n; i++) { TMCG_Card c(2, tb); T->TMCG_CreateOpenCard(c, *ring, i); s->push(c); }
+			T->TMCG_CreateStackSecret(*ss, cyc, *ring, 0, n);
+			T->TMCG_MixStack(*s, *s2, *ss, *ring);
+			*vs = *s; *vs2 = *s2;
+			System *S = new System; S->name = std::string("qr_cutchoose") + (cyc ? "_cyc" : ""); S->interactive = true; S->p = *mA; S->q = *mA; S->tol = tolm;
+			S->prover = [=](std::istream &i, std::ostream &o) { T->TMCG_ProveStackEquality(*s, *s2, *ss, cyc, *ring, 0, i, o); };
+			S->verifier = [=](std::istream &i, std::ostream &o) { return T->TMCG_VerifyStackEquality(*vs, *vs2, cyc, *vring, i, o); };
+			for (size_t i = 0; i < n; i++) for (size_t k = 0; k < 2; k++) for (size_t w = 0; w < tb; w++) {
+				S->knobs.push_back(Knob{"s.z", &(*vs)[i].z[k][w], 'm'}); S->knobs.push_back(Knob{"t.z", &(*vs2)[i].z[k][w], 'm'}); }
+			key_knobs(S);
+			for (int tries = 0; tries < 20; tries++) {
+				uint64_t keep = gen().s; uint64_t sp = gen().next(), sv = gen().next(); std::string p2v, v2p;
+				run_pair(sp, sv, S->prover, S->verifier, p2v, v2p);
+				if (v2p.find("\n0\n") != std::string::npos && v2p.find("\n1\n") != std::string::npos) { gen().s = keep; break; }
+			}
+			emit(S, a, 1);
+		}
+	}
+	{   // masking proof and card-secret proof on single cards
+		SchindelhauerTMCG *T = new SchindelhauerTMCG(a.thorough() ? 8 : 5, 2, tb);
+		TMCG_Card *c = new TMCG_Card(2, tb), *cc = new TMCG_Card(2, tb), *vc = new TMCG_Card(2, tb), *vcc = new TMCG_Card(2, tb);
+		TMCG_CardSecret *cs = new TMCG_CardSecret(2, tb);
+		T->TMCG_CreateOpenCard(*c, *ring, 5); T->TMCG_CreateCardSecret(*cs, *ring, 0); T->TMCG_MaskCard(*c, *cc, *cs, *ring);
+		*vc = *c; *vcc = *cc;
+		System *S = new System; S->name = "qr_maskcard"; S->interactive = true; S->p = *mA; S->q = *mA; S->tol = tolm;
+		S->prover = [=](std::istream &i, std::ostream &o) { T->TMCG_ProveMaskCard(*c, *cc, *cs, *ring, i, o); };
+		S->verifier = [=](std::istream &i, std::ostream &o) { return T->TMCG_VerifyMaskCard(*vc, *vcc, *vring, i, o); };
+		for (size_t k = 0; k < 2; k++) for (size_t w = 0; w < tb; w++) { S->knobs.push_back(Knob{"c.z", &vc->z[k][w], 'm'}); S->knobs.push_back(Knob{"cc.z", &vcc->z[k][w], 'm'}); }
+		key_knobs(S);
+		emit(S, a, 1);
+		System *S2 = new System; S2->name = "qr_cardsecret"; S2->interactive = true; S2->p = *mA; S2->q = *mA; S2->tol = tolm;
+		S2->prover = [=](std::istream &i, std::ostream &o) { T->TMCG_ProveCardSecret(*cc, *secA, 0, i, o); };
+		S2->verifier = [=](std::istream &i, std::ostream &o) { TMCG_CardSecret out(2, tb); return T->TMCG_VerifyCardSecret(*vcc, out, vring->keys[0], 0, i, o); };
+		for (size_t w = 0; w < tb; w++) S2->knobs.push_back(Knob{"cc.z", &vcc->z[0][w], 'm'});
+		S2->knobs.push_back(Knob{"key.m", vring->keys[0].m, 'm'}); S2->knobs.push_back(Knob{"key.y", vring->keys[0].y, 'm'});
+		emit(S2, a, 1);
+	}
+}
+
 int main(int argc, char **argv) {
 	Args a(argc, argv);
 	if (!init_libTMCG()) { fprintf(stderr, "libTMCG_init failed\n"); return 3; }
 	unsigned long fsz = a.thorough() ? 768 : 512, gsz = a.thorough() ? 192 : 160;
 	std::string only = a.only;
+	if (only == "qr") { qr_systems(a); printf("DONE qr\n"); return 0; }
 	if (only == "rec") { fsser_records(a); verifier_records(a); printf("DONE rec\n"); return 0; }
 	World W(fsz, gsz);
 	printf("WORLD p=%s q=%s\n", hx(W.A->p).c_str(), hx(W.A->q).c_str());
@@ -455,6 +522,7 @@ int main(int argc, char **argv) {
 	if (only.empty() || only == "groth") groth_systems(W, a);
 	if (only.empty() || only == "hoogh") hoogh_systems(W, a);
 	if (only.empty() || only == "pedersen") pedersen_systems(W, a);
+	if (only.empty()) qr_systems(a);
 	printf("DONE %s\n", only.c_str());
 	return 0;
 }
